@@ -883,7 +883,7 @@ func runClusterSearch(c *Ctx, r *Rng, shape [3]int) {
 				askMu.Lock()
 				asked[pi]++
 				askMu.Unlock()
-				time.Sleep(time.Duration(r.Intn(3)) * time.Millisecond) // vary completion order
+				time.Sleep(time.Duration(atomic.AddInt64(&jitterSeq, 1)%3) * time.Millisecond) // vary completion order (the hook runs on several goroutines: no shared generator)
 			}
 			return nil
 		}
@@ -1013,7 +1013,7 @@ func runClusterSearch(c *Ctx, r *Rng, shape [3]int) {
 	// ---- a member has left the entry node's address book (last: the allocator reacts to it). Partitions
 	// that list it may have no replica left that this node can reach: the search fails, or it still
 	// consults every partition exactly once — it never answers without them.
-	if len(cl.ids) > 1 {
+	if len(cl.ids) > 1 && c.Args["nodeparted"] == "" {
 		entry := cl.ids[0]
 		gone := cl.ids[len(cl.ids)-1]
 		cl.nodes[entry].node.Conn.RemoveNode(gone)
@@ -1053,6 +1053,7 @@ func runClusterSearch(c *Ctx, r *Rng, shape [3]int) {
 }
 
 var slowSizeDone bool
+var jitterSeq int64
 
 func failingDesc(m map[uint64]error) string {
 	var ss []string
